@@ -5,7 +5,9 @@ and what the real `server.handle(...)` did (observed by wrapping it on the insta
 
 A case is JSON-able:
   {"module","class","method","call_id","body"(hex),"minor","protocol"(override|None),
-   "script":{"mode":"stub|ok|raise|wrong|missing","exc":name,"code":int|str|None,"yields":n,"vseed":int},
+   "script":{"mode":"stub|ok|raise|wrong|missing|partial","exc":name,"code":int|str|None,"yields":n,"vseed":int,"k":int},
+   (partial = a well-typed result in which the k-th response value / a late element or field of the value is of the
+    wrong type, so that encoding fails after part of the response has already been written)
    "kind": tag, "extract": "ok"|"other"|"observed"}
 """
 import collections, importlib, logging, random, struct, asyncio
@@ -92,7 +94,22 @@ def classify(e):
 
 class WrongType:
     """an object of a class no generated handler expects"""
-    pass
+    def __repr__(self): return "<WrongType>"   # deterministic: `stationurl()` encodes str(value)
+
+
+def corrupt_late(b, value):
+    """make `value` fail late in its encoding; returns (value, corrupted?)"""
+    if isinstance(value, list):
+        return value + [WrongType()], True
+    if isinstance(value, common.Structure) and type(value) not in (common.Data, common.NullData):
+        hier = [c for c in value.get_hierarchy() if c is not common.Data]
+        for c in reversed(hier):
+            try: fields = b._for_class(c).loads(c)
+            except V.Unbuildable: continue
+            if fields:
+                setattr(value, fields[-1][0], WrongType())
+                return value, True
+    return WrongType(), False
 
 
 class Peer:
@@ -173,13 +190,19 @@ def instrument(srvinfo, cell):
                 obj = rmc.RMCResponse()
                 for f in m["fields"][:-1]: setattr(obj, f, 0)
                 return obj
-            if mode == "ok":
+            if mode in ("ok", "partial"):
                 b.rng = random.Random(sc["vseed"] + 1)
                 try:
-                    return b.response_value(srvinfo["class"], m["user"], m["resp"], m["fields"])
+                    rv = b.response_value(srvinfo["class"], m["user"], m["resp"], m["fields"])
                 except V.Unbuildable as e:
                     cell.value_error = str(e)
                     raise
+                if mode == "partial":
+                    if m["resp"] == "m":
+                        setattr(rv, m["fields"][sc["k"] % len(m["fields"])], WrongType())
+                    else:
+                        rv, _ = corrupt_late(b, rv)
+                return rv
             raise ValueError(mode)
         return user
     for m in srvinfo["methods"]:
@@ -212,14 +235,19 @@ def valid_body(srvinfo, m, settings, vseed):
     return b.request_body(m["req_exprs"], settings)[0]
 
 
-async def run_session(srvinfos, cases, minor=0, max_yields=200):
-    """srvinfos: translator records of the servers registered in this session; cases: list of case dicts
-    (case["srv"] = index into srvinfos or None). returns list of result dicts."""
+def prebuild(srvinfos):
     cell = Cell()
+    return cell, [instrument(si, cell) for si in srvinfos]
+
+
+async def run_session(srvinfos, cases, minor=0, max_yields=200, prebuilt=None):
+    """srvinfos: translator records of the servers registered in this session; cases: list of case dicts
+    (case["srv"] = index into srvinfos or None). returns list of result dicts.
+    A session is one connection: a new RMCClient (and, unless `prebuilt`, new server objects)."""
+    cell, servers = prebuilt if prebuilt else prebuild(srvinfos)
     peer = Peer(minor)
     S = nexsettings.default()
     client = rmc.RMCClient(S, peer)
-    servers = [instrument(si, cell) for si in srvinfos]
     state = {"loop": "alive"}
     async def loop():
         try:
@@ -250,11 +278,24 @@ async def run_session(srvinfos, cases, minor=0, max_yields=200):
     return results
 
 
-def run_sessions(jobs):
+def run_sessions(jobs, prebuilt=None):
     """jobs: list of (srvinfos, cases, minor)"""
     async def main():
         out = []
         for srvinfos, cases, minor in jobs:
-            out.append(await run_session(srvinfos, cases, minor))
+            out.append(await run_session(srvinfos, cases, minor, prebuilt=prebuilt))
+        return out
+    return anyio.run(main)
+
+
+def run_fresh(srvinfos, cases, minor, fresh_servers_every=50):
+    """every case on its own fresh connection (new RMCClient + receive loop); the server objects are rebuilt
+    every `fresh_servers_every` cases (the generated classes keep no per-request state)"""
+    async def main():
+        out = []
+        pre = None
+        for i, case in enumerate(cases):
+            if pre is None or i % fresh_servers_every == 0: pre = prebuild(srvinfos)
+            out.append((await run_session(srvinfos, [case], minor, prebuilt=pre))[0])
         return out
     return anyio.run(main)
